@@ -77,6 +77,11 @@ fn read_garbage_short() {
     read_garbage::<6, 10>(b"hello\n");
 }
 #[kani::proof]
+fn read_garbage_leading_bytes() {
+    // a well-formed frame preceded by stray bytes on the same line is not a frame
+    read_garbage::<14, 17>(b"x:00000000FF\r\n");
+}
+#[kani::proof]
 fn read_garbage_bare_lf_frame() {
     // a frame terminated by a bare LF is not a frame
     read_garbage::<12, 15>(b":00000000FF\n");
@@ -139,21 +144,17 @@ fn write_fragmented<const N: usize, const TL: usize, const CAP: usize>(mask: u64
     std::mem::forget(f);
 }
 #[kani::proof]
-fn write_fragmented_n2() {
-    write_fragmented::<2, 15, 19>(0);
-}
-#[kani::proof]
 fn write_fragmented_n1() {
     write_fragmented::<1, 13, 17>(0);
 }
+/// Same check against a sink that takes exactly one byte per call (deterministic, cheap).
 #[kani::proof]
-fn write_fragmented_n1_interrupted() {
-    // Interrupted on calls 0 and 2
-    write_fragmented::<1, 13, 17>(0b101);
+fn write_bytewise_n1() {
+    write_fragmented::<1, 13, 17>(1 << 63);
 }
 #[kani::proof]
-fn write_fragmented_n3() {
-    write_fragmented::<3, 17, 21>(0);
+fn write_bytewise_n3() {
+    write_fragmented::<3, 17, 21>(1 << 63);
 }
 
 /// A hard write error at call AT surfaces as FrameError::Io (never Ok); one byte accepted per call before.
